@@ -1,0 +1,29 @@
+//go:build verif
+// +build verif
+
+package simdjson
+
+import "unsafe"
+
+// Event kinds reported to the verification harness.
+const (
+	VerifEvAcquire  = 1 // producer picked ring slot (arg = buffersOffset counter)
+	VerifEvSend     = 2 // producer about to send a buffer (arg = length)
+	VerifEvSent     = 3 // producer's send returned
+	VerifEvSendTerm = 4 // producer about to send the terminator
+	VerifEvSentTerm = 5 // terminator sent
+	VerifEvRecvWait = 6 // consumer done with its buffer, about to receive
+	VerifEvRecv     = 7 // consumer received (arg = 1 for terminator, else 0)
+)
+
+// VerifEventHook, when non-nil, is called at every pipeline event with an
+// opaque identity of the parser state. It may block the calling goroutine.
+var VerifEventHook func(id uintptr, kind int, arg uint64)
+
+func verifEvent(pj *internalParsedJson, kind int, arg uint64) {
+	if h := VerifEventHook; h != nil {
+		h(verifID(pj), kind, arg)
+	}
+}
+
+func verifID(pj *internalParsedJson) uintptr { return uintptr(unsafe.Pointer(pj)) }
